@@ -508,3 +508,84 @@ func BigSlowRecycle(name string, sizes []int, bSize int, bound int) *world.Scena
 	}
 	return sc
 }
+
+// ---------------------------------------------------------------------------------------------
+// batches larger than one vectored write (the proxy writes at most 1024 slices per writev)
+
+// BigBatch: production buffer sizes. One client sends a GET whose node answers late (after a clock tick), then n GETs
+// (n > 1024, keys of nodes B and C) in ONE chunk, so that n fragments are queued to the backends by one loop round and n
+// completed replies pile up behind the unanswered head; when the head is answered all n+1 replies are flushed at once.
+// slow: the client also reads slowly, so the flush lands in the outbound buffer and is drained by writable events.
+func BigBatch(name string, n int, slow bool, bound int) *world.Scenario {
+	sc := &world.Scenario{Nodes: T3m(), Bound: bound, Family: "big-batch", Horizon: 20000, ReadCap: 65536, WriteCap: 65536, MaxLen: 1 << 20,
+		Ticks: []time.Duration{time.Millisecond}, WriteOracle: slow}
+	head := GetReq(keysA[0])
+	reqs := []Req{PingReq(), head}
+	var rest []byte
+	for j := 0; j < n; j++ {
+		var k string
+		if j%3 == 2 {
+			k = fmt.Sprintf("{%s}%d", keysC[1], j)
+		} else {
+			k = fmt.Sprintf("{%s}%d", keysB[1], j)
+		}
+		r := GetReq(k)
+		reqs = append(reqs, r)
+		rest = append(rest, r.Bytes...)
+	}
+	cs := ClientOf(reqs, false)
+	cs.Chunks = []world.Chunk{{Data: reqs[0].Bytes}, {Data: append(append([]byte{}, head.Bytes...), rest...), WaitReplies: 1}}
+	cs.Slow = slow
+	sc.Clients = []world.ClientSpec{cs}
+	sc.Reply = func(w *world.World, bc *world.BConn, args [][]byte) ([]byte, int) {
+		if hasKey(args, keysA[0]) {
+			return world.ValueOf([]byte(keysA[0])), 1
+		}
+		return nil, 0
+	}
+	// the clock only moves once every other reply has been read by the proxy
+	sc.TickGate = func(w *world.World) bool {
+		cnt := 0
+		for _, bc := range w.BConns {
+			if bc.Addr == AddrA {
+				continue
+			}
+			for i := range bc.Log {
+				if bc.ReadByProxy(i) {
+					cnt++
+				}
+			}
+		}
+		return cnt >= n
+	}
+	sc.Name = fmt.Sprintf("%s/big-batch/%d-behind-stalled-head/slow=%v/d%d", name, n, slow, bound)
+	sc.Check = func(w *world.World) []world.Violation {
+		vs := CheckStreams(w, StreamOpts{})
+		for i := range vs {
+			if len(vs[i].Msg) > 500 {
+				vs[i].Msg = vs[i].Msg[:500] + "..."
+			}
+		}
+		// per node: the fragments arrive in the order the client sent them
+		for _, bc := range w.BConns {
+			last := -1
+			for _, rec := range bc.Log {
+				if len(rec.Args) < 2 || world.Lower(rec.Args[0]) != "get" {
+					continue
+				}
+				k := string(rec.Args[1])
+				if i := strings.LastIndexByte(k, '}'); i >= 0 {
+					var j int
+					fmt.Sscanf(k[i+1:], "%d", &j)
+					if j < last {
+						vs = append(vs, world.Violation{Sig: "per-node-order-violated", Msg: fmt.Sprintf("node %s received request #%d after #%d", bc.Addr, j, last)})
+						break
+					}
+					last = j
+				}
+			}
+		}
+		return append(vs, BackendsWellFormed(w)...)
+	}
+	return sc
+}
